@@ -11,7 +11,7 @@ do I say the buffer looks like":
                                               (i… = writer.go's copies of the guarded helpers)
   reset <bytes|slices|items>               -> ok
   new <kind> <slot> <cap> buf=<id>         -> buf=<id>
-  get <kind> <n> <slot> via=<id> new=<b>   -> buf=<id> new=<b> len=.. cap=.. dirty=..
+  get <kind> <n> <slot> via=<id> new=<b>   -> buf=<id> new=<b> len=.. cap=.. dirty=.. hdirty=..
                                               | PANIC | not-allowed …
   get <kind> <n> <slot> via=panic          -> what the model says for a pool miss
   put <kind> <slot> <len> <mode>           -> ok | bad-slot | PANIC
@@ -55,7 +55,7 @@ def modelPut (k : Kind) (p : Pools) (b : Buf) : Pools × Res :=
 def countDirty (l : List Bool) : Nat := (l.filter id).length
 
 def showBuf (id : Nat) (nw : String) (b : Buf) : String :=
-  s!"buf={id} new={nw} len={b.len} cap={b.cap} dirty={countDirty b.vis}"
+  s!"buf={id} new={nw} len={b.len} cap={b.cap} dirty={countDirty b.vis} hdirty={countDirty b.hid}"
 
 def setSlot (slots : List (String × (Nat × Buf))) (s : String) (v : Nat × Buf) :=
   (s, v) :: slots.filter (fun x => x.1 ≠ s)
